@@ -131,8 +131,17 @@ class PropsDriver:
         self.h = objects.DBusObjectHandler(self.conn)
         Sub = build_classes(layout)
         self.o = Sub('/obj')
+        # a second object of the same class lives beside it with other values; both are looked at before anything
+        # is assigned ("is it set yet?"): whatever one object stores must never show through the other
+        self.twin = Sub('/twin')
+        for obj in (self.o, self.twin):
+            for pid in LAYOUTS[layout]['order']:
+                if pid not in LAYOUTS[layout]['anon'] or obj is self.twin:
+                    getattr(obj, DECL[pid][5])
         for pid in LAYOUTS[layout]['order']:
             setattr(self.o, DECL[pid][5], concrete(pid, 0))
+        for pid in LAYOUTS[layout]['order']:
+            setattr(self.twin, DECL[pid][5], concrete(pid, 3))
         self.h.exportObject(self.o)
         del self.conn.sent[:]
         self.reply = {'k': 'none'}
